@@ -201,8 +201,8 @@ def run(ctx, n_override=None):
                 mb = {a: v for a, v in mbal.items() if v}
                 ib = {a: v for a, v in bal.items() if v}
                 if st != 0 or mb != ib or mn != nrows:
-                    res.disagreements.append(dict(name='C08/balances', case=main, kind=kind, status=st, counts=(mn, nrows),
-                                                  diff=str([(a, ib.get(a), mb.get(a)) for a in set(ib) | set(mb) if ib.get(a) != mb.get(a)])[:600],
+                    res.disagreements.append(dict(name='C08/balances', case=main, kind=kind, status=st, counts=(mn, nrows), text='\n'.join(x.text(x.orig) for x in xs),
+                                                  diff=str([(a, ib.get(a), mb.get(a)) for a in set(ib) | set(mb) if ib.get(a) != mb.get(a)])[:1500],
                                                   impl=str((sorted(ib.items()), nrows))[:600], model=str((sorted(mb.items()), mn))[:600], err=err[-300:]))
             # oracle: identical to the base
             if ref is None:
